@@ -1435,6 +1435,10 @@ func genBWText(rng *rand.Rand) string {
 // confGenExt: the ops added for the loaders, the flags and the client-side validators
 func confGenExt(rng *rand.Rand, emit func(string)) {
 	switch k := rng.Intn(100); {
+	case k < 4:
+		emit(genSValV(rng))
+	case k < 8:
+		emit(genCCVal(rng))
 	case k < 34:
 		emit(genFl(rng))
 	case k < 70:
